@@ -87,3 +87,21 @@ for _d, _dest in ((("n_face",), "edge"), (("time", "n_face"), "edge"), (("n_node
                        f"result.dims == {list(_d[:-1]) + ['n_edge']!r}"] if _ok else []),
              options={"abstract": True, "summaries": _ACC + _KER},
              raises=[("ValueError", str(not _ok), "iff")])
+
+
+# ---- edge distance plumbing (C16 dataflow): the distances stored on a grid are computed from THIS grid's spherical coordinates (node /
+# face lon-lat, which exist for every source and are unit-free) and THIS grid's edge tables, and nothing else in the dataset changes
+_N = "uxarray.grid.neighbors."
+for _fn, _var, _lon, _lat, _tab in (("_populate_edge_node_distances", "edge_node_distances", "node_lon", "node_lat", "edge_node_connectivity"),
+                                    ("_populate_edge_face_distances", "edge_face_distances", "face_lon", "face_lat", "edge_face_connectivity")):
+    _kern = _N + _fn.replace("_populate", "_construct")
+    contract(_N + _fn, props=["C16"],
+             params={"grid": "obj('Grid')"}, returns="none",
+             modifies=[f"grid._ds['{_var}']"],
+             ensures=[f"has(grid._ds, '{_var}')",
+                      f"same(entry(grid._ds, '{_var}').data, summary('{_kern}', attr(summary('{_G}{_lon}', grid), 'values'), "
+                      f"attr(summary('{_G}{_lat}', grid), 'values'), attr(summary('{_G}{_tab}', grid), 'values')))",
+                      f"entry(grid._ds, '{_var}').dims == ['n_edge']",
+                      f"ds_frame(grid._ds, old(grid._ds), ['{_var}'])"],
+             options={"abstract": True, "frames": True, "summaries": [_kern, _G + _lon, _G + _lat, _G + _tab]},
+             raises=[("Exception", "False", "only_if")])
